@@ -699,6 +699,22 @@ fn fq_naive_index(file: &[u8]) -> Option<Vec<FqIx>> {
     Some(out)
 }
 
+/// the same through a `BufReader` of a small capacity: a name, a sequence or a quality line spans
+/// several buffer fills
+fn fq_index_real_cap(file: &[u8], cap: usize) -> Result<Result<Vec<FqIx>, String>, String> {
+    guarded(|| {
+        let mut ix = fastq::io::Indexer::new(io::BufReader::with_capacity(cap, file));
+        let mut out = vec![];
+        loop {
+            match ix.index_record() {
+                Ok(Some(r)) => out.push((r.name().as_bytes().to_vec(), r.length(), r.sequence_offset(), r.line_bases(), r.line_width(), r.quality_scores_offset())),
+                Ok(None) => return Ok(out),
+                Err(e) => return Err(errclass(&e).to_string()),
+            }
+        }
+    })
+}
+
 fn fq_index_real(file: &[u8]) -> Result<Result<Vec<FqIx>, String>, String> {
     guarded(|| {
         let mut ix = fastq::io::Indexer::new(file);
@@ -750,6 +766,19 @@ fn fq_case(ctx: &mut Ctx, file: &[u8], kind: &str, case: &str, emit_corr: bool) 
     if !same {
         ctx.fail("fastq-index-naive", format!("fastq Indexer on {} answered {ans}; four raw lines at a time give {}", show(file), naive.as_ref().map(|n| fmt_fqix(n)).unwrap_or("a rejection (InvalidData)".into())), case.into());
         return;
+    }
+    // (1b) the index does not depend on the buffer size of the source
+    for cap in [1usize, 2, 3, 7, 16] {
+        ctx.eval(None);
+        let small = fq_index_real_cap(file, cap);
+        if small != Ok(real.clone()) {
+            ctx.fail(
+                "fastq-index-buffer-dependent",
+                format!("fastq Indexer on {} through a BufReader of capacity {cap} answered {}, on the slice {ans}", show(file), match &small { Ok(Ok(v)) => fmt_fqix(v), Ok(Err(c)) => c.clone(), Err(p) => format!("panic {p}") }),
+                case.into(),
+            );
+            return;
+        }
     }
     // (2) against the FASTQ reader
     let rd = guarded(|| fastq::io::Reader::new(file).records().collect::<io::Result<Vec<_>>>());
